@@ -505,6 +505,19 @@ def _(I, a):
     return NONE() if r is None else some(r - s.start)
 
 
+@model('core::str::<impl str>::rfind')
+def _(I, a):
+    s = as_str(a[0])
+    pat = pattern_bytes(a[1])
+    n = len(pat)
+    i = s.end - n
+    while i >= s.start:
+        if n == 0 or I.branch(bytes_eq(s.buf[i:i + n], pat)):
+            return some(i - s.start)
+        i -= 1
+    return NONE()
+
+
 @model('core::str::<impl str>::contains')
 def _(I, a):
     s = as_str(a[0])
